@@ -10,6 +10,8 @@ exception raised as well as the result, and imply that no Go panic (`Err.panic`)
 `…_partial` theorems carry a named exclusion (a known finding of KNOWN_FINDINGS.txt); the matching `…_witness` theorems show the model really departs from the spec there.
 -/
 import GPy.C13.Proofs
+import GPy.C13.HeapProofs
+import GPy.C13.Proofs2
 namespace GPy.C13
 
 /-! ### slice normalisation (py/slice.go GetIndices) -/
@@ -335,13 +337,23 @@ theorem eq_spec (x y : List Int) :
     cmp .eq (.list x) (.tuple y) = .ok (.bool false) ∧ ((x == y) = true ↔ x = y) := by
   refine ⟨rfl, rfl, rfl, beq_iff_eq⟩
 
-/-- C13-K01: bytes has no len() -/
-theorem bytes_len_witness : len (.bytes [97, 98]) = .error .type ∧ kfBytesOp .bytes "len" = true := by decide
+/-- bytes (C13-K01 repaired by fix 8b172df: `Bytes.M__getitem__` has the shape of `Tuple.M__getitem__`): slicing for
+every key, `len`, iteration -/
+theorem bytes_ops_spec (t : List Int) (sl : Slice) (wf : sl.WF) (hl : (t.length : Int) ≤ IntMax) :
+    getItem (.bytes t) (.slice sl) = (specSliceIdx t.length sl).map (fun idxs => Obj.bytes (pick t idxs)) ∧
+    len (.bytes t) = .ok (.int t.length) ∧ iterate (.bytes t) = .ok (t, false) := by
+  refine ⟨?_, rfl, rfl⟩
+  simp only [getItem]
+  rw [tuple_getslice_spec t sl wf hl]
+  cases specSliceIdx t.length sl <;> rfl
 
-/-- C13-K02: lists are not ordered: `[1,2] < [1,3]` -/
-theorem list_order_witness :
-    cmp .lt (.list [1, 2]) (.list [1, 3]) = .error .type ∧
-    specCmp .lt ⟨.list, [1, 2]⟩ ⟨.list, [1, 3]⟩ = .ok (.bool true) ∧ kfSeqOrder .list .list .lt = true := by decide
+/-- `b[i]` on bytes (exclusion: C13-K03) -/
+theorem bytes_getitem_spec_partial (l : List Int) (i : Idx) (wf : i.WF) (hl : (l.length : Int) ≤ IntMax)
+    (hk : kfBigIndex i = false) :
+    getItem (.bytes l) (.idx i) = (specIndex l.length i).map (fun p => Obj.int (l.getD p 0)) := by
+  simp only [getItem]
+  rw [tuple_getitem_spec_partial l i wf hl hk]
+  cases specIndex l.length i <;> rfl
 
 /-- C13-K04: `[0,1] * 2**62` is `[]` (Python: MemoryError) and `[0,1,2] * 6148914691236517206` panics -/
 theorem mul_overflow_witness :
@@ -403,6 +415,225 @@ theorem range_iter_spec_partial (a b c : Int) (h : RangeArgsOK a b c) (fuel : Na
 theorem range_wide_witness :
     (rangeNew (.int (-9223372036854775808)) (.int 9223372036854775807) (.int 9223372036854775807)).map (·.length) = .ok 1 ∧
     kfRangeWide (.int (-9223372036854775808)) (.int 9223372036854775807) (.int 9223372036854775807) = true := by decide
+
+/-! ### ordering, membership, repetition, range slicing (proofs in Proofs2.lean) -/
+
+/-- **list / tuple ordering** (C13-K02 repaired): for all six operators and all operands, `py.Lt … py.Ge`,
+`py.Eq`, `py.Ne` on two lists (two tuples) return the Boolean Python's lexicographic comparison defines
+(the common Boolean is `specOrd op x y`); no error, no panic.  No hypotheses. -/
+theorem order_spec (op : CmpOp) (x y : List Int) :
+    (∃ b, cmp op (.list x) (.list y) = .ok (.bool b) ∧ specCmp op ⟨.list, x⟩ ⟨.list, y⟩ = .ok (.bool b)) ∧
+    (∃ b, cmp op (.tuple x) (.tuple y) = .ok (.bool b) ∧ specCmp op ⟨.tuple, x⟩ ⟨.tuple, y⟩ = .ok (.bool b)) :=
+  order_spec_lemma op x y
+
+/-- **str / bytes ordering**: the same for two strs (code points) and two bytes objects, all six operators.
+No hypotheses. -/
+theorem strbytes_order_spec (op : CmpOp) (x y : List Int) :
+    (∃ b, cmp op (.str x) (.str y) = .ok (.bool b) ∧ specCmp op ⟨.str, x⟩ ⟨.str, y⟩ = .ok (.bool b)) ∧
+    (∃ b, cmp op (.bytes x) (.bytes y) = .ok (.bool b) ∧ specCmp op ⟨.bytes, x⟩ ⟨.bytes, y⟩ = .ok (.bool b)) :=
+  strbytes_order_spec_lemma op x y
+
+/-- **membership**: `e in s` for an integer `e` and a list / tuple / bytes operand is `xs.contains e`; with a str
+operand it is a TypeError; `n in s` for a str needle is substring search on a str operand and `False` on a
+sequence of integers.  Model = spec in every case, for all operands.  No hypotheses.
+(range operands: `range_contains_spec_partial`.) -/
+theorem contains_spec (xs : List Int) (e : Int) (n : List Int) :
+    (contains (.list xs) (.int e) = .ok (.bool (xs.contains e)) ∧ specContains ⟨.list, xs⟩ e = .ok (.bool (xs.contains e))) ∧
+    (contains (.tuple xs) (.int e) = .ok (.bool (xs.contains e)) ∧ specContains ⟨.tuple, xs⟩ e = .ok (.bool (xs.contains e))) ∧
+    (contains (.bytes xs) (.int e) = .ok (.bool (xs.contains e)) ∧ specContains ⟨.bytes, xs⟩ e = .ok (.bool (xs.contains e))) ∧
+    (contains (.str xs) (.int e) = .error .type ∧ specContains ⟨.str, xs⟩ e = .error .type) ∧
+    (∃ b, contains (.str xs) (.str n) = .ok (.bool b) ∧ specContainsStr ⟨.str, xs⟩ n = .ok (.bool b)) ∧
+    (contains (.list xs) (.str n) = .ok (.bool false) ∧ specContainsStr ⟨.list, xs⟩ n = .ok (.bool false)) ∧
+    (contains (.tuple xs) (.str n) = .ok (.bool false) ∧ specContainsStr ⟨.tuple, xs⟩ n = .ok (.bool false)) ∧
+    (contains (.bytes xs) (.str n) = .ok (.bool false) ∧ specContainsStr ⟨.bytes, xs⟩ n = .ok (.bool false)) :=
+  contains_spec_lemma xs e n
+
+/-- `e in range(a, b, c)` (through the iterator, as `SequenceContains` does): membership in the items of the
+progression.  Hypotheses: `RangeArgsOK` (the rest is C13-K05) and at most `drainCap` items (the model of the
+iteration drains at most that many items – a bound of the model, not of the implementation). -/
+theorem range_contains_spec_partial (a b c : Int) (h : RangeArgsOK a b c) (hcap : (rangeElems a b c).length ≤ drainCap)
+    (e : Int) :
+    ∃ r, rangeNew (.int a) (.int b) (.int c) = .ok r ∧
+      contains (.range r) (.int e) = .ok (.bool ((rangeElems a b c).contains e)) ∧
+      specContains ⟨.range, rangeElems a b c⟩ e = .ok (.bool ((rangeElems a b c).contains e)) :=
+  range_contains_spec_partial_lemma a b c h hcap e
+
+/-- `List.M__mul__` / `Tuple.M__mul__` / `Bytes.M__mul__`: when the total length `b · len` is an int64, the
+copy loop produces `b` copies (none for `b ≤ 0`) and never slices out of range (no panic) -/
+theorem seqMul_spec (xs : List Int) (b : Int) (h : inRange (b * xs.length)) :
+    seqMul xs b = .ok (List.replicate b.toNat xs).flatten :=
+  seqMul_spec_lemma xs b h
+
+/-- **repetition** `s * b` / `b * s` for list, tuple, bytes, str and a `py.Int` count `b`: `b` copies (the empty sequence
+for `b ≤ 0` or an empty operand), model = spec.
+Excluded: (1) `kfMulOverflow` – the total length `b · len` exceeds int64 (known finding C13-K04);
+(2) `b · len < IntMin` – a negative count times a length so large that the product wraps around to a positive
+int64 (needs `len > 2^62`, i.e. no sequence that fits in memory; the code would then return copies instead of
+the empty sequence).  `kfMulOverflow` only delimits the positive side, hence the extra hypothesis `hlo`.
+`hb` says that a `py.Int` holds an int64. -/
+theorem repeat_spec_partial (xs : List Int) (b : Int) (hb : inRange b)
+    (hk : kfMulOverflow xs.length (.int b) = false) (hlo : IntMin ≤ b * xs.length) :
+    (∃ r, mul (.list xs) (.int b) = .ok (.list r) ∧ specMul ⟨.list, xs⟩ (.int b) = .ok (.seq ⟨.list, r⟩)) ∧
+    (∃ r, mul (.tuple xs) (.int b) = .ok (.tuple r) ∧ specMul ⟨.tuple, xs⟩ (.int b) = .ok (.seq ⟨.tuple, r⟩)) ∧
+    (∃ r, mul (.bytes xs) (.int b) = .ok (.bytes r) ∧ specMul ⟨.bytes, xs⟩ (.int b) = .ok (.seq ⟨.bytes, r⟩)) ∧
+    (∃ r, mul (.str xs) (.int b) = .ok (.str r) ∧ specMul ⟨.str, xs⟩ (.int b) = .ok (.seq ⟨.str, r⟩)) :=
+  repeat_spec_partial_lemma xs b hb hk hlo
+
+/-- why `hlo` is there: for a (hypothetical) operand of 2^62 items, `xs * -3` is `xs` in the model but `[]` in
+the specification, and `kfMulOverflow` is false -/
+theorem repeat_neg_wrap_witness (xs : List Int) (hx : xs.length = 4611686018427387904) :
+    seqMul xs (-3) = .ok xs ∧ specMul ⟨.list, xs⟩ (.int (-3)) = .ok (.seq ⟨.list, []⟩) ∧
+    kfMulOverflow xs.length (.int (-3)) = false :=
+  repeat_neg_wrap_witness_lemma xs hx
+
+/-- repetition with a bool count (`convertToInt` accepts `py.Bool`): `s * True = s`, `s * False` is empty -/
+theorem repeat_bool_spec (xs : List Int) (c : Bool) (hl : (xs.length : Int) ≤ IntMax) :
+    (∃ r, mul (.list xs) (.bool c) = .ok (.list r) ∧ specMul ⟨.list, xs⟩ (.bool c) = .ok (.seq ⟨.list, r⟩)) ∧
+    (∃ r, mul (.tuple xs) (.bool c) = .ok (.tuple r) ∧ specMul ⟨.tuple, xs⟩ (.bool c) = .ok (.seq ⟨.tuple, r⟩)) ∧
+    (∃ r, mul (.bytes xs) (.bool c) = .ok (.bytes r) ∧ specMul ⟨.bytes, xs⟩ (.bool c) = .ok (.seq ⟨.bytes, r⟩)) ∧
+    (∃ r, mul (.str xs) (.bool c) = .ok (.str r) ∧ specMul ⟨.str, xs⟩ (.bool c) = .ok (.seq ⟨.str, r⟩)) :=
+  repeat_bool_spec_lemma xs c hl
+
+/-- **slicing a range** `range(a, b, c)[start:stop:step]`, every slice key (None, integers of any magnitude, bools,
+non-integers): the same exception as Python (TypeError / ValueError, step examined first), or a range object whose
+length is the number of selected positions and whose iteration yields exactly the selected items in order and then
+stops.  No in-range hypothesis on `start + i·step` / `step · r.step` of the new object is needed: its fields are computed
+mod 2^64 (`wrap64` is a ring homomorphism) and every delivered item is an item of the original range, hence an int64.
+(The theorem is about the length and the items; the `Start/Stop/Step` fields of the new object may be wrapped values,
+e.g. `Stop` when the slice ends beyond the last item.)
+Excluded: range arguments outside `RangeArgsOK` (known finding C13-K05). -/
+theorem range_slice_spec_partial (a b c : Int) (h : RangeArgsOK a b c) (sl : Slice) (wf : sl.WF) :
+    ∃ r, rangeNew (.int a) (.int b) (.int c) = .ok r ∧
+      match specSliceIdx (rangeElems a b c).length sl with
+      | .ok idxs => ∃ r', computeRangeSlice r sl = .ok r' ∧ r'.length = idxs.length ∧
+          ∀ fuel, idxs.length ≤ fuel → rangeDrain r' 0 fuel = (pick (rangeElems a b c) idxs, false)
+      | .error e => computeRangeSlice r sl = .error e :=
+  range_slice_spec_partial_lemma a b c h sl wf
+
+/-! ### results never alias a mutable operand, operands are never corrupted (slice-header model of Heap.lean)
+
+Go slices are headers `(array, offset, len, cap)`; `grow` is the allocator's growth rule for `append`
+(arbitrary: no assumption is needed).  A tuple / bytes value IS a header, a list is a reference to one. -/
+
+/-- **operand_unchanged (tuple, bytes).**  Over ANY finite history of tuple / bytes operations - slicing (which returns
+a sub-slice of the operand's array that keeps the operand's spare capacity), `+`, `+=`, `*`, `*=`, `tuple(x)`, `bytes(x)` -
+applied to ANY headers (in particular to earlier results, with whatever offset, length, spare capacity and sharing
+they have), no cell of any array that existed at the start is ever written and no list object changes: whatever is
+later done with a result, the operand still reads the same. -/
+theorem operand_unchanged_immutable (grow : Nat → Nat → Nat) {h h' : Heap} (r : ImmReach grow h h') (s : Hdr)
+    (hs : s.arr < h.arrs.length) : h'.read s = h.read s ∧ h'.lists = h.lists :=
+  ⟨read_congr (r.noWrite.cells _ hs), r.noWrite.lists⟩
+
+/-- the statement above is not vacuous about `append`: the seeded variant `Tuple.M__iadd__ = append(a, b...)` is
+`goAppendH`, and on the sub-slice `s[0:2]` of `s = (1,2,3,4,5)` it overwrites the parent (a test by evaluation) -/
+theorem append_in_place_witness :
+    let (h, s) := Heap.empty.alloc [1, 2, 3, 4, 5] 0
+    (goSliceH s 0 2).map (fun t => ((goAppendH (fun _ n => n) h t [9]).1.read s, sharing t s)) = .ok ([1, 2, 9, 4, 5], (2, 3, 0)) := by
+  decide
+
+/-- **value of a sub-slice.**  The heap-level tuple / bytes slicing (which for step 1 returns a header into the operand's
+array, keeping its spare capacity) computes the value of the List-level model (`tupleGetItem`, which
+`tuple_getslice_spec` equates with Python's slice): for a well-formed header, whatever its spare capacity -/
+theorem tuple_slice_value (h h' : Heap) (t s : Hdr) (sl : Slice) (wf : sl.WF) (w1 : t.len ≤ t.cap)
+    (w2 : t.off + t.cap ≤ (h.cells t.arr).length) (hl : (t.len : Int) ≤ IntMax)
+    (hok : hTupleGetSlice h t sl = .ok (h', s)) :
+    tupleGetItem (h.read t) (.slice sl) = .ok (.inr (h'.read s)) := by
+  have hlen := read_length h t w1 w2
+  unfold hTupleGetSlice at hok
+  simp only [tupleGetItem, hlen]
+  cases hgi : getIndices sl t.len with
+  | error e => rw [hgi] at hok; cases hok
+  | ok q =>
+    obtain ⟨start, stop, step, len⟩ := q
+    have hb := getindices_bounds sl wf t.len hl start stop step len hgi
+    rw [hgi] at hok
+    rw [bind_ok]
+    simp only [bind, Except.bind, pure, Except.pure] at hok ⊢
+    split at hok
+    · rename_i hstep
+      have h1 : step = 1 := by simpa using hstep
+      subst h1
+      obtain ⟨a0, a1, b0, b1⟩ := hb.2.1 (by omega)
+      rw [if_pos hstep]
+      have hc' : ∀ q : Int, q = (if stop < start then start else stop) → 0 ≤ start ∧ start ≤ q ∧ q ≤ (t.len : Int) := by
+        intro q hq; subst hq; split <;> omega
+      generalize (if stop < start then start else stop) = q at hok hc' ⊢
+      have hq := hc' q rfl
+      have hgs : goSliceH t start q = .ok ⟨t.arr, t.off + start.toNat, (q - start).toNat, t.cap - start.toNat⟩ := by
+        unfold goSliceH; rw [if_pos ⟨hq.1, hq.2.1, by omega⟩]; rfl
+      rw [hgs] at hok
+      simp only at hok
+      injection hok with hok; injection hok with e1 e2; subst e1; subst e2
+      unfold goSub
+      rw [hlen, if_pos hq]
+      have := read_sub h t start.toNat q.toNat (by omega) (by omega)
+      have e : (q - start).toNat = q.toNat - start.toNat := by omega
+      rw [e, this]; rfl
+    · rename_i hstep
+      rw [if_neg hstep]
+      split at hok
+      · cases hok
+      · rename_i _ out hout
+        injection hok with hok
+        rw [fst_eq hok, snd_eq hok, read_alloc]
+
+/-- **result_fresh.**  The result of slicing, concatenating, repeating or copy-constructing a LIST is a new list object
+whose items live in an array that did not exist before (or it has no capacity at all): it shares no array cell with
+any operand; every existing list object and every existing array is unchanged. -/
+theorem result_fresh (grow : Nat → Nat → Nat) {h h' : Heap} {op : ListMk} {r : Nat} (hok : runListMk grow h op = .ok (h', r)) :
+    r = h.lists.length ∧ (∀ r', r' < h.lists.length → h'.list r' = h.list r') ∧
+    (∀ s : Hdr, s.arr < h.arrs.length → h'.read s = h.read s) ∧
+    ((h'.list r).cap = 0 ∨ h.arrs.length ≤ (h'.list r).arr) := by
+  obtain ⟨_, fcells, fref, s, hls, _, hs⟩ := runListMk_fresh grow hok
+  refine ⟨fref, fun r' hr' => ?_, fun s hs => read_congr (fcells _ hs), ?_⟩
+  · simp only [Heap.list, hls, List.getD_eq_getElem?_getD]
+    rw [List.getElem?_append_left hr']
+  · have : h'.list r = s := by rw [fref]; simp [Heap.list, hls]
+    rw [this]; exact hs.imp id (fun x => x.1)
+
+/-- **operand_unchanged (in-place list operations: `+=`, `append`, `extend`, slice/index assignment and deletion).**
+They write only to the list's own array or to new arrays: every other list object keeps its header, and every
+header into another array reads the same afterwards. -/
+theorem operand_unchanged_inplace (grow : Nat → Nat → Nat) {h h' : Heap} {r : Nat} {op : ListOp} (hr : r < h.lists.length)
+    (hok : runListOp grow h r op = .ok h') :
+    (∀ r', r' ≠ r → h'.list r' = h.list r') ∧
+    (∀ s : Hdr, s.arr < h.arrs.length → s.arr ≠ (h.list r).arr → h'.read s = h.read s) := by
+  have ip := runListOp_inPlace grow hr hok
+  exact ⟨ip.others, fun s hs hne => read_congr (ip.cells _ hs hne)⟩
+
+/-- **separation.**  From the empty heap, over any finite history mixing tuple / bytes operations on live values,
+list-producing operations and in-place list operations, every list object owns its array: no other list and no live
+tuple / bytes value has a header into it (`WInv`). -/
+theorem lists_own_their_arrays (grow : Nat → Nat → Nat) {w : World} (r : WReach grow ⟨Heap.empty, []⟩ w) : WInv w :=
+  r.inv WInv.empty
+
+/-- hence, at any point of any history, an in-place operation on the list `r` changes the VALUE of no other list and of
+no live tuple / bytes value.  Excluded (`_partial`): a target list whose `Items` has no capacity at all (a nil slice:
+the frame lemma identifies arrays by id and a capacity-less header carries no meaningful id). -/
+theorem other_values_unchanged_partial (grow : Nat → Nat → Nat) {w : World} (iv : WInv w) {r : Nat} {op : ListOp} {h' : Heap}
+    (hr : r < w.h.lists.length) (hcap : (w.h.list r).cap ≠ 0) (hok : runListOp grow w.h r op = .ok h') :
+    (∀ r', r' < w.h.lists.length → r' ≠ r → h'.read (h'.list r') = w.h.read (w.h.list r')) ∧
+    (∀ t, t ∈ w.live → t.cap ≠ 0 → h'.read t = w.h.read t) := by
+  have ip := runListOp_inPlace grow hr hok
+  refine ⟨fun r' hr' hne => ?_, fun t ht hc => ?_⟩
+  · rw [ip.others r' hne]
+    obtain ⟨hlc, harr⟩ := iv.own r' hr'
+    rcases iv.sep r' r hr' hr hne with c0 | c1 | c2
+    · have : (w.h.list r').len = 0 := by omega
+      simp [Heap.read, this]
+    · exact absurd c1 hcap
+    · rcases harr with c0 | c3
+      · have : (w.h.list r').len = 0 := by omega
+        simp [Heap.read, this]
+      · exact read_congr (ip.cells _ c3 c2)
+  · rcases iv.imm t ht with c0 | c1
+    · exact absurd c0 hc
+    · rcases c1.2 r hr with d0 | d1
+      · exact absurd d0 hcap
+      · exact read_congr (ip.cells _ c1.1 (Ne.symm d1))
+
+example : ImmReach (fun _ n => n) Heap.empty (Heap.empty.alloc [] 0).1 :=
+  .step (.add Hdr.nil Hdr.nil) (Heap.empty.alloc [] 0).2 (.refl _) rfl
 
 /-! ### non-vacuity -/
 
